@@ -223,6 +223,15 @@ def gen_decls(rng, rich=False, props=None):
                     # a parameter named dbusCaller that is not the last one: does NOT ask for the caller
                     del a['arity']
                     a['shape'], a['wants'] = 'mid', False
+                elif a['arity'] == 0 and rng.random() < 0.4:
+                    del a['arity']
+                    a['shape'], a['wants'] = 'varargs0', True
+            elif rng.random() < 0.45:
+                # catch-all / keyword-only parameters around dbusCaller
+                if a['wants']:
+                    a['shape'] = rng.choice(['kwargs', 'kwonly'])
+                elif rng.random() < 0.5:
+                    a['shape'] = 'kwonly-caller'
             attrs.append(a)
         for _ in range(rng.randrange(0, 4)):
             m = rng.choice(MEMBERS)
@@ -243,7 +252,10 @@ def gen_decls(rng, rich=False, props=None):
                 continue
             used.add(name)
             fid[0] += 1
-            attrs.append({'name': name, 'fid': fid[0], 'deco': deco, 'wants': rng.random() < 0.4})
+            a = {'name': name, 'fid': fid[0], 'deco': deco, 'wants': rng.random() < 0.4}
+            if rng.random() < 0.3:
+                a['shape'] = rng.choice(['kwargs', 'kwonly']) if a['wants'] else 'kwonly-caller'
+            attrs.append(a)
         return attrs
 
     n_cls = rng.randrange(1, 4)
@@ -432,6 +444,23 @@ def make_func(rec, name, fid, deco, wants, arity=None, shape=None):
     if shape == 'mid':
         def f(self, dbusCaller, a1=_M, a2=_M, a3=_M):
             return rec.invoked(fid, [dbusCaller] + [a for a in (a1, a2, a3) if a is not _M], _M)
+    elif shape == 'kwargs':
+        # dbusCaller is the last NAMED POSITIONAL parameter, a **catch-all follows: asks for the caller
+        def f(self, a0=_M, a1=_M, a2=_M, a3=_M, dbusCaller=_M, **options):
+            return rec.invoked(fid, [a for a in (a0, a1, a2, a3) if a is not _M], dbusCaller)
+    elif shape == 'kwonly':
+        # keyword-only parameters after dbusCaller: asks for the caller
+        def f(self, a0=_M, a1=_M, a2=_M, a3=_M, dbusCaller=_M, *, flag=None, other=1):
+            return rec.invoked(fid, [a for a in (a0, a1, a2, a3) if a is not _M], dbusCaller)
+    elif shape == 'varargs0':
+        # `(self, dbusCaller=None, *extra)`: asks for the caller (only bound to members without arguments)
+        def f(self, dbusCaller=_M, *extra):
+            return rec.invoked(fid, list(extra), dbusCaller)
+    elif shape == 'kwonly-caller':
+        # a KEYWORD-ONLY dbusCaller is not among the named positional parameters: by the code's rule
+        # (inspect.getfullargspec()[0]) this method does not ask for the caller
+        def f(self, *args, dbusCaller=_M):
+            return rec.invoked(fid, list(args), dbusCaller)
     elif arity is not None:
         params = ['self'] + ['a%d' % i for i in range(arity)] + (['dbusCaller'] if wants else [])
         src = 'lambda %s: _rec.invoked(_fid, [%s], %s)' % (
@@ -563,6 +592,11 @@ class Built:
 
     def export_lines(self):
         return [' '.join(['export'] + self.obj_tokens(path, obj)) for path, obj in self.handler.exports.items()]
+
+
+def kwonly_caller(f):
+    code = f.__code__
+    return 'dbusCaller' in code.co_varnames[code.co_argcount:code.co_argcount + code.co_kwonlyargcount]
 
 
 def wants_caller(f):
@@ -814,6 +848,7 @@ class CallRecord:
         self.resolved = None        # first resolution spec applied to its Deferred
         self.returned_deferred = False
         self.raised = False
+        self.caller_rule_open = False
 
 
 class Scenario:
@@ -1069,7 +1104,13 @@ class Scenario:
                     self.problem('wrong-arguments', 'implementation ran with %r, decoded arguments are %r'
                                  % (args, cr.decoded), cr, repr(args), repr(cr.decoded))
                 f = self.func_of(fid)
-                if f is not None:
+                if f is not None and kwonly_caller(f):
+                    # a keyword-only dbusCaller: whether that "asks for it" is not settled by the
+                    # statement (the code's rule - named positional parameters - says no): either is accepted
+                    cr.caller_rule_open = True
+                    if caller is not _M and caller != cr.sender:
+                        self.problem('wrong-caller', 'dbusCaller passed as %r, the sender is %r' % (caller, cr.sender), cr)
+                elif f is not None:
                     want_caller = cr.sender if wants_caller(f) else _M
                     if caller is not want_caller and caller != want_caller:
                         self.problem('wrong-caller', 'dbusCaller passed as %r, expected %r'
@@ -1304,11 +1345,11 @@ GRID_DECLS = {
                    {'name': 'impl_two', 'fid': 2, 'deco': ['org.a', 'two'], 'wants': True, 'arity': 0},
                    {'name': 'impl_two_b', 'fid': 3, 'deco': ['org.a', 'two'], 'wants': False},
                    {'name': 'dbus_three', 'fid': 4, 'deco': ['org.a', 'three'], 'wants': False},
-                   {'name': 'handler', 'fid': 5, 'deco': ['org.b', 'three'], 'wants': True}]},
+                   {'name': 'handler', 'fid': 5, 'deco': ['org.b', 'three'], 'wants': True, 'shape': 'kwargs'}]},
         {'bases': [0], 'ifaces': [3, 2],
          'attrs': [{'name': 'handler', 'fid': 6, 'deco': None, 'wants': False},
                    {'name': 'impl_one', 'fid': 7, 'deco': ['org.b', 'one'], 'wants': True, 'arity': 2},
-                   {'name': 'dbus_Ping', 'fid': 8, 'deco': None, 'wants': True},
+                   {'name': 'dbus_Ping', 'fid': 8, 'deco': None, 'wants': True, 'shape': 'kwonly'},
                    {'name': 'impl_c_two', 'fid': 9, 'deco': ['com.c', 'two'], 'wants': False}]},
     ],
     'objects': [{'path': '/a', 'cls': 1}, {'path': '/a/b', 'cls': 0}, {'path': '/c/d/e', 'cls': 1}],
@@ -1391,6 +1432,14 @@ def judge(ctx, stream, sc, model_out=None):
             if exp['v'] == 'run':
                 ctx.stat('binding=' + exp['style'])
                 ctx.stat('asks-for-caller=%s' % exp['wants'])
+                f = sc.func_of(exp['fid'])
+                if f is not None:
+                    code = f.__code__
+                    ctx.stat('implementation signature: %s%s%s' % (
+                        'dbusCaller last named positional' if exp['wants'] else
+                        'dbusCaller keyword-only' if 'dbusCaller' in code.co_varnames[code.co_argcount:code.co_argcount + code.co_kwonlyargcount]
+                        else 'dbusCaller not last' if 'dbusCaller' in code.co_varnames[:code.co_argcount] else 'no dbusCaller',
+                        ', *args' if code.co_flags & 0x04 else '', ', **kwargs' if code.co_flags & 0x08 else ''))
             if ran:
                 oc = op['outcome']
                 if oc['kind'] in VALUE_KINDS:
@@ -1411,8 +1460,8 @@ def judge(ctx, stream, sc, model_out=None):
             ctx.stat('op=' + op['op'])
     if any(c.get('bases') == ['plain'] for c in spec['decls']['classes']):
         ctx.stat('scenario: mixin (multiple inheritance)')
-    if any(a.get('shape') == 'mid' for c in spec['decls']['classes'] for a in c['attrs']):
-        ctx.stat('scenario: dbusCaller parameter not last')
+    for sh in sorted({a.get('shape') for c in spec['decls']['classes'] for a in c['attrs'] if a.get('shape')}):
+        ctx.stat('scenario: method shape ' + sh)
     if model_out is not None:
         outs = model_out[sc.n_prefix:]
         for k, (m, i) in enumerate(zip(outs, sc.impl_lines)):
@@ -1420,6 +1469,9 @@ def judge(ctx, stream, sc, model_out=None):
                 op = spec['ops'][k]
                 tk = op['k'] if op['op'] == 'resolve' else k
                 tcr = sc.calls.get(tk)
+                if tcr is not None and getattr(tcr, 'caller_rule_open', False):
+                    ctx.stat('caller rule for a keyword-only dbusCaller differs from the model')
+                    continue
                 if tcr is not None and tcr.exp['v'] == 'ambiguous':
                     # the statement leaves the tie-break open; the model mirrors the code's present
                     # choice, another choice is not a broken obligation
